@@ -269,8 +269,13 @@ def _child(root: str, case: dict[str, Any]) -> dict[str, Any]:
                     if fired_now or isinstance(e, simenv.InjectedFault):
                         res["fault_in_call"] = name
                     else:
-                        res["refused_at"] = arg if name == "write_block" else name
-                        res["refusal"] = core.describe_exc(e)
+                        if res["refused_at"] is None:
+                            res["refused_at"] = arg if name == "write_block" else name
+                            res["refusal"] = core.describe_exc(e)
+                        if name == "write_block":
+                            # the caller catches the refusal and goes on using the writer
+                            res.setdefault("refused", []).append((arg, core.describe_exc(e)))
+                            continue
                     break
                 else:
                     if env is not None and len(env.fired) > fired_before:
@@ -333,15 +338,19 @@ def _child(root: str, case: dict[str, Any]) -> dict[str, Any]:
         if res["refused_at"] in ("begin", "end"):
             verdicts.append(("unexpected_refusal", res["refused_at"], f"{res['refused_at']}() raised {res['refusal']}"))
             return res
-        i = res["refused_at"]
-        a, data = blocks[i]
-        cls = addr_class(a, len(data), shift)
-        if cls in ("low", "other", "ends_at_2^24"):
-            # (an empty block at an unrepresentable address may be refused or ignored: both accepted)
-            verdicts.append(("unexpected_refusal", cls, f"write_block(len={len(data)}, addr={a:#x}) raised {res['refusal']} although IPS can represent it"))
-        res["refused_class"] = cls
-        return res  # file after a refused block is undefined: not judged
-    # all calls returned normally -> the file must be a correct patch
+        for i, why in res.get("refused", []):
+            a, data = blocks[i]
+            cls = addr_class(a, len(data), shift)
+            if cls in ("low", "other", "ends_at_2^24"):
+                # (an empty block at an unrepresentable address may be refused or ignored: both accepted)
+                verdicts.append(("unexpected_refusal", cls, f"write_block(len={len(data)}, addr={a:#x}) raised {why} although IPS can represent it"))
+            res.setdefault("refused_class", cls)
+        if verdicts:
+            return res
+    # the file must be a well-formed patch in every case - also when some blocks were refused and the
+    # caller went on: accepted blocks in write order, each refused block contributing nothing or a
+    # prefix of itself made of whole records (what was written before the writer noticed)
+    refused_idx = [i for i, _ in res.get("refused", [])]
     try:
         records = ipsref.parse(data_out or b"")
     except ipsref.IpsFormatError as e:
@@ -351,11 +360,36 @@ def _child(root: str, case: dict[str, Any]) -> dict[str, Any]:
             s = a + shift
             if len(data) and s <= EOFO < s + len(data) and (EOFO - s) % 65535 == 0:
                 sig = "record_offset_reads_as_EOF"
-        verdicts.append(("malformed_file", sig, f"produced file is not a well-formed IPS patch: {e} (klass {e.klass})"))
+        if refused_idx:
+            sig = "after_refusal:" + e.klass
+        verdicts.append(("malformed_file", sig, f"produced file is not a well-formed IPS patch{' (after a refused block the caller went on)' if refused_idx else ''}: {e} (klass {e.klass})"))
         return res
     res["n_records"] = len(records)
     got = ipsref.apply_records(records)
     want = ipsref.image_of_blocks(blocks, shift)
+    if refused_idx:
+        import itertools
+
+        def prefixes(n: int) -> list[int]:
+            out = [0]
+            k = 1
+            while k * 65535 - 1 < n:
+                out += [p for p in (k * 65535 - 1, k * 65535) if p < n]
+                k += 1
+            return out
+
+        matched = False
+        for combo in itertools.islice(itertools.product(*[prefixes(len(blocks[i][1])) for i in refused_idx]), 5000):
+            cut = dict(zip(refused_idx, combo))
+            model = [(a, d[: cut[j]] if j in cut else (b"" if j in refused_idx else d)) for j, (a, d) in enumerate(blocks)]
+            if got == ipsref.image_of_blocks(model, shift):
+                matched = True
+                break
+        res["n_records"] = len(records)
+        if not matched:
+            accepted = ipsref.image_of_blocks([(a, b"" if j in refused_idx else d) for j, (a, d) in enumerate(blocks)], shift)
+            verdicts.append(("image_mismatch", "after_refusal", "some blocks were refused and the caller went on; the patched image (first) is neither the accepted blocks alone (second) nor those plus a whole-record prefix of the refused ones: " + "; ".join(got.diff(accepted))))
+        return res
     if got != want:
         d = got.diff(want)
         sig = "image"
